@@ -28,8 +28,11 @@ package service
 //@   ensures C05.wf: wf(p)
 //@   ensures C05.gone: !has(p.subcontractingRecord, id) && !has(p.timeoutRecord, id)
 
+//@ spec vmsg(m *Message) bool = m != nil && m.JTMessage != nil && m.JTMessage.Header != nil && m.JTMessage.Header.Property != nil
+
 //@ func (*packageParse).completePack
 //@   ensures C05.wf: wf(p)
+//@   ensures valid: result1 ==> vmsg(result0)
 //@   ensures C05.range: old(msg.JTMessage.Header.SubPackageSum) > 0 && (old(msg.JTMessage.Header.SubPackageNo) == 0 || (old(msg.JTMessage.Header.SubPackageNo) != 1 && int(old(msg.JTMessage.Header.SubPackageNo)) > old(len(p.subcontractingRecord[msg.JTMessage.Header.ID])))) ==> result1 == false && result0 == nil
 //@   ensures C05.unfragmented: old(msg.JTMessage.Header.SubPackageSum) == 0 ==> result1 == false && result0 == nil
 //@   ensures C05.flag: result1 ==> result0 != nil && result0.ExtensionFields.SubcontractComplete
@@ -44,6 +47,9 @@ package service
 // pending-bytes buffer up to its capacity) overlaps the raw frame, the body or the BCD phone of a returned message.
 // ---------------------------------------------------------------------------------------------
 //@ func (*packageParse).unpack
+//@   ensures valid: forall(j, 0, len(msgs), vmsg(msgs[j]))
+//@   ensures msgsfresh: msgs == nil || fresh(msgs)
+//@   loop 1 invariant valid: forall(j, 0, len(msgs), vmsg(msgs[j]))
 //@   ensures C09.data: forall(j, 0, len(msgs), disjoint(msgs[j].ExtensionFields.TerminalData, data) && disjoint(msgs[j].JTMessage.Body, data))
 //@   ensures C09.hist: forall(j, 0, len(msgs), disjoint(msgs[j].ExtensionFields.TerminalData, p.historyData) && disjoint(msgs[j].JTMessage.Body, p.historyData))
 //@   loop 1 invariant C09.data: forall(j, 0, len(msgs), msgs[j] != nil && msgs[j].JTMessage != nil && disjoint(msgs[j].ExtensionFields.TerminalData, data) && disjoint(msgs[j].JTMessage.Body, data))
@@ -67,3 +73,14 @@ package service
 //@   modifies c.platformSerialNumber
 //@   ensures C06.value: result == old(c.platformSerialNumber)
 //@   ensures C06.next: c.platformSerialNumber == old(c.platformSerialNumber) + 1
+
+
+//@ func (*packageParse).deleteTimeoutPackage
+//@   ensures C14.wf: wf(p)
+//@   loop 1 invariant wf: wf(p)
+
+
+//@ func (*packageParse).supplementarySubPackage
+//@   ensures C14.wf: wf(p)
+//@   loop 1 invariant wf: wf(p)
+//@   loop 1 invariant msgs: msgs == nil || fresh(msgs)
